@@ -767,9 +767,9 @@ theorem acct_onSupervise_core {s : Sys} (self fc : Cid) (targets allT : List Cid
                 · exact chainOK_mono hch' h3.ext.n_le p hp
             · exact h2
 
-theorem acct_onSupervise {s : Sys} (self : Cid) (chain : List (Cid × List Cid)) (hv : Valid s) (hself : self < s.n)
-    (hch : chainOK s.n chain) : Acct0 s (onSupervise s self chain) := by
-  unfold onSupervise
+theorem acct_onSuperviseDecide {s : Sys} (self : Cid) (chain : List (Cid × List Cid)) (hv : Valid s) (hself : self < s.n)
+    (hch : chainOK s.n chain) : Acct0 s (onSuperviseDecide s self chain) := by
+  unfold onSuperviseDecide
   have h0 : Acct0 s (if (s.ctx self).strat = 0 then s else upd s self (fun x => { x with decIdx := x.decIdx + 1 })) := by
     split
     · exact Acct.refl hv
@@ -799,6 +799,15 @@ theorem acct_onSupervise {s : Sys} (self : Cid) (chain : List (Cid × List Cid))
     refine acct_onSupervise_core self f _ _ _ _ _ h0 hv hself htg (fun t ht => ?_) hch'
     obtain ⟨p, hp, htp⟩ := mem_allTargets ht
     exact (hch' p hp).2 t htp
+
+theorem acct_onSupervise {s : Sys} (self : Cid) (chain : List (Cid × List Cid)) (hv : Valid s) (hself : self < s.n)
+    (hch : chainOK s.n chain) : Acct0 s (onSupervise s self chain) := by
+  unfold onSupervise
+  split
+  · exact acct_onSuperviseDecide self chain hv hself hch
+  · cases chain with
+    | nil => exact acct_tell _ _ _ _ hv hself (fun d hd => by cases hd; exact hself) trivial rfl
+    | cons p rest => exact acct_tell _ _ _ _ hv (hch p (by simp)).1 (fun d hd => by cases hd; exact hself) trivial rfl
 
 /-- The copies one `HandleEnvelop` adds for id `i`. -/
 def handleD (s : Sys) (self : Cid) (e : Env) (i : Nat) : Nat :=
